@@ -13,7 +13,7 @@ EXPLANATION = (
     "current = previous.apply(f), so the result r satisfies r.apply(f) == r for a deterministic f. RW-3 (necessary for termination): no composed "
     "portfolio contains a rule together with its inverse. TERM: every portfolio member that is a schema `pattern => template` strictly decreases "
     "(number of nodes, number of reverse implications) lexicographically without duplicating a metavariable, or is the identity; every other member "
-    "must be one of the eight rewrites whose termination argument was reviewed by hand (TERM_TABLE), so a new rewrite that does neither is reported.")
+    "must be one of the eight rewrites whose termination argument was reviewed by hand (TERM_TABLE), so a new rewrite that does neither is reported. SHARED: `--strategy fixpoint` runs apply_fixpoint (C07's strategy dispatch).")
 UNDECIDED = ["termination of the eight non-schematic rewrites (quantifier and comparison rules): their measure arguments are a reviewed table, not derived; a change inside one of them that makes it oscillate is not detected by TERM",
              "address-space / allocator effects cannot influence output because no pointer value is printed (no `{:p}`, checked) - scheduler effects are C10"]
 ASSUMPTIONS = ["indexmap preserves insertion order", "the simplification rules are functions (no interior state)"]
